@@ -193,18 +193,15 @@ fn main() {
                         tx2.commit("c18 b").block_on().unwrap();
                         repo = repo.reload_at_head().block_on().unwrap();
                     } else {
-                        // position order of the mutable index: the readonly base's order, then
-                        // the new commits in the order they were written (each write indexes
-                        // its commit: repo.rs add_heads / mutable.rs add_commit_data)
-                        let mut order = dagrepo::index_order(&repo, &known(&commits));
                         let before: Vec<usize> = levels(&repo).iter().map(|&x| x as usize).collect();
                         let mut tx = repo.start_transaction();
                         for m in k..k + size {
                             write(tx.repo_mut(), &mut commits, &mut last_cid, m);
-                            order.push(commits[m].id().clone());
                         }
                         if rng.chance(1, 3) {
-                            // in-memory (mutable segment on top of the readonly stack)
+                            // in-memory (mutable segment on top of the readonly stack); its
+                            // position order is read through the public Revset trait
+                            let order = dagrepo::index_order_dyn(tx.repo(), &known(&commits));
                             snaps.push(snapshot(tx.repo(), None, order, &mut rng, 4));
                         }
                         repo = tx.commit("c18").block_on().unwrap();
